@@ -502,7 +502,13 @@ class DPTComplex(DPTBase, Generic[_ComplexDataT]):
             if isinstance(value, cls.data_type):
                 return cls._to_knx(value)
             return cls._to_knx(cls.data_type.from_dict(value))  # type: ignore[arg-type]
-        except (ValueError, TypeError, AttributeError, ConversionError) as err:
+        except (
+            ValueError,
+            TypeError,
+            AttributeError,
+            OverflowError,
+            ConversionError,
+        ) as err:
             raise ConversionError(
                 f"Could not serialize {cls.dpt_name()}: {err}", value=value
             ) from err
